@@ -2098,11 +2098,16 @@ class DiskObjectStore(PackBasedObjectStore):
         Raises:
           KeyError: if the object is not found
         """
+        # An object can be stored more than once (loose and in one or more
+        # packs, e.g. when it arrives again in a fetched pack). Its age is
+        # that of its most recent copy: somebody wrote it just then.
+        mtimes = []
+
         # First check if it's a loose object
         if self.contains_loose(sha):
             path = self._get_shafile_path(sha)
             try:
-                return os.path.getmtime(path)
+                mtimes.append(os.path.getmtime(path))
             except FileNotFoundError:
                 pass
 
@@ -2113,13 +2118,15 @@ class DiskObjectStore(PackBasedObjectStore):
                     # Use the pack file's mtime for packed objects
                     pack_path = pack._data_path
                     try:
-                        return os.path.getmtime(pack_path)
+                        mtimes.append(os.path.getmtime(pack_path))
                     except (FileNotFoundError, AttributeError):
                         pass
             except PackFileDisappeared:
                 pass
 
-        raise KeyError(sha)
+        if not mtimes:
+            raise KeyError(sha)
+        return max(mtimes)
 
     def _remove_pack(self, pack: Pack) -> None:
         # _pack_cache is keyed by the full pack basename (e.g. "pack-<hash>"
